@@ -315,7 +315,7 @@ PROPS["C17"] = {
     "required_theorems": ["Failsafe.Props.C17.attempts_eq_one_plus_retries_plus_hedges", "Failsafe.Props.C17.applyPolicy_preserves",
                           "Failsafe.Props.C17.executeStack_preserves", "Failsafe.Props.C17.breaker_rejection_not_an_execution",
                           "Failsafe.Props.C17.bulkhead_rejection_not_an_execution", "Failsafe.Props.C17.hedge_preserves", "Failsafe.Props.C17.retry_preserves",
-                          "Failsafe.Props.C17.flags_agree", "Failsafe.Props.C17.first_xor_retry", "Failsafe.Props.C17.isRetry_iff_retries_or_hedges",
+                          "Failsafe.Props.C17.flags_agree", "Failsafe.Props.C17.seenBy_val", "Failsafe.Props.C17.seenBy_err", "Failsafe.Props.C17.seenBy_not_cancelled", "Failsafe.Props.C17.seenBy_cancelled", "Failsafe.Props.C17.first_xor_retry", "Failsafe.Props.C17.isRetry_iff_retries_or_hedges",
                           "Failsafe.Tie.Execution.tie_isFirstAttempt", "Failsafe.Tie.Execution.tie_isRetry", "Failsafe.Tie.Execution.tie_attempts"],
     "diff": [COMPOSE_DIFF], "rule": COMPOSE_RULE, "assumptions": COMPOSE_ASSUME, "modelled": COMPOSE_MODELLED + [
         "Executions sampled in listeners is compared only in stacks without a hedge (a cancelled hedge attempt completes asynchronously); its final value after quiescence is always compared",
@@ -323,7 +323,7 @@ PROPS["C17"] = {
         "IsHedge is part of the function's event in model and DIFF (Run.hedgeAttempt, event name fnh); it is not the subject of a separate theorem"],
     "manifest": {
         "text": "Lean 4 theorems: Attempts = 1 + Retries + Hedges is an invariant of every policy layer over an arbitrary inner layer, hence of every execution of every policy list (induction over the list; retry and hedge by induction on their loops); an attempt rejected by an open breaker or a full bulkhead leaves invocations and Executions unchanged; the boolean flags agree with the counters (IsFirstAttempt iff Attempts = 1, IsRetry iff Attempts > 1, exactly one of them; proved about the getters regenerated from execution.go). Tie: GEN (the six statistics getters), FACTS (InitializeRetry / CopyForHedge / record bodies), DIFF sampling Attempts/Executions inside every listener and Retries/Hedges/Executions in the done event against the model's value at that point, and evaluating the flag clause on every execution object handed to the function, a fallback function or a listener.",
-        "note": "Trusted: Lean kernel; fact extractor; harness. LastResult/LastError seen by each function invocation, by each fallback function and by every listener of a retry policy (OnFailure, OnSuccess, OnAbort, OnRetriesExceeded, OnRetryScheduled, OnRetry: the attempt's outcome, retry_onFailure_events) are part of the DIFF event log (model fields Run.last / Event.seen); time monotonicity is a harness-side oracle, not a theorem.",
+        "note": "Trusted: Lean kernel; fact extractor; harness. LastResult/LastError seen by each function invocation, by each fallback function, by every listener of a retry policy (OnFailure, OnSuccess, OnAbort, OnRetriesExceeded, OnRetryScheduled, OnRetry: the attempt's outcome, retry_onFailure_events) and by the policy-level OnSuccess / OnFailure listeners of breakers and fallbacks (the result they classified, read through LastError()'s context rule: seenBy_*) are part of the DIFF event log (model fields Run.last / Event.seen); time monotonicity is a harness-side oracle, not a theorem.",
         "technique": "Lean 4 proof (inductive invariant over layers and policy lists) + structural facts + differential correspondence"},
 }
 
